@@ -11,6 +11,7 @@ import (
 	"math"
 	"math/rand"
 
+	"github.com/whatap/golib/io"
 	"github.com/whatap/golib/lang/pack"
 	"github.com/whatap/golib/lang/value"
 	"github.com/whatap/golib/util/hmap"
@@ -112,6 +113,36 @@ func (o *obj) reread() {
 	o.p = q
 	o.t.Emit(core.Ev{"ev": "Reread"})
 	o.ops["reread"] = true
+}
+
+// readInto: the object's own Read is handed the message of ANOTHER, freshly built pack of its
+// kind (a receiver that decodes every message into one object and forwards it).  From then on
+// the object is that pack: the writes that follow are judged against its content.
+func (o *obj) readInto() {
+	if o.dead || !rereadKinds[o.kind] {
+		return
+	}
+	s2 := randShape(o.r, o.kind, true)
+	var proj core.Ev
+	var b2 []byte
+	if msg := core.Guard(func() {
+		var p2 pack.Pack
+		p2, proj = realize(s2)
+		b2 = append([]byte(nil), pack.ToBytesPack(p2)...)
+	}); msg != "" {
+		o.t.Emit(core.Ev{"ev": "Panic", "at": "ReadInto.other", "kind": o.kind, "msg": msg})
+		o.dead = true
+		return
+	}
+	if msg := core.Guard(func() { o.p.Read(io.NewDataInputX(append([]byte(nil), b2[2:]...))) }); msg != "" {
+		o.t.Emit(core.Ev{"ev": "Panic", "at": "ReadInto", "kind": o.kind, "msg": msg})
+		o.dead = true
+		return
+	}
+	ev := core.Ev{"ev": "ReadInto", "p": proj, "bytes": core.Cp(b2)}
+	o.hash(ev)
+	o.t.Emit(ev)
+	o.ops["readinto"] = true
 }
 
 // mut performs one call on the real object and records it
@@ -758,6 +789,12 @@ func mutCase(c *core.Ctx, t *core.Trace, kind string, cas int) {
 		}
 		if r.Intn(5) == 0 {
 			o.reread()
+		}
+		if r.Intn(4) == 0 {
+			o.readInto()
+			if r.Intn(2) == 0 {
+				o.write()
+			}
 		}
 	}
 	o.count("mut")
